@@ -75,7 +75,8 @@ type RawScalar string
 
 var (
 	rxPlainSafe = regexp.MustCompile(`^[A-Za-z0-9][A-Za-z0-9 ._/=@+-]*[A-Za-z0-9]$|^[A-Za-z0-9]$`)
-	rxNumeric   = regexp.MustCompile(`^[-+]?(\.?[0-9][0-9_.,]*)([eE][-+]?[0-9]+)?$|^0[xob]`)
+	rxPlainOID  = regexp.MustCompile(`^[0-9]+(\.[0-9]+){2,}$`)
+	rxPlainDate = regexp.MustCompile(`^[0-9]{4}-[0-9]{2}-[0-9]{2}$`)
 	yamlWords   = map[string]bool{"y": true, "n": true, "yes": true, "no": true, "on": true, "off": true,
 		"true": true, "false": true, "null": true, "nan": true, "inf": true}
 )
@@ -87,15 +88,10 @@ func plainOK(s string) bool {
 	if yamlWords[strings.ToLower(s)] {
 		return false
 	}
-	if rxNumeric.MatchString(s) {
-		// dotted OIDs with three or more arcs and dates are strings in YAML
-		if strings.Count(s, ".") >= 2 && !strings.ContainsAny(s, "eE_,+-") {
-			return true
-		}
-		if regexp.MustCompile(`^[0-9]{4}-[0-9]{2}-[0-9]{2}$`).MatchString(s) {
-			return true
-		}
-		return false
+	// anything that starts like a number is only left plain when YAML cannot read it as
+	// one: dotted OIDs with three or more arcs, and dates (which stay strings)
+	if c := s[0]; (c >= '0' && c <= '9') || c == '+' || c == '-' || c == '.' {
+		return rxPlainOID.MatchString(s) || rxPlainDate.MatchString(s)
 	}
 	return true
 }
